@@ -4,15 +4,16 @@ from atsim.potentials.config import ConfigParser, Configuration
 from atsim.potentials.config._common import ConfigurationException
 from decimal import Decimal
 
-def section(kw, target='LAMMPS', extra=''):
-    return '[Tabulation]\ntarget : %s\n%s\n%s\n[Pair]\nA-B : as.polynomial 1.0 2.0\n' % (target, '\n'.join('%s : %s' % (k, v) for k, v in kw.items()), extra)
+def section(kw, target='LAMMPS', extra='', variables=None):
+    # unreferenced [Variables] named like the grid keys the section leaves out: they are not 'given' (the defaults apply as without them)
+    return ('[Variables]\n%s\n\n' % '\n'.join('%s : %s' % kv for kv in sorted(variables.items())) if variables else '') + '[Tabulation]\ntarget : %s\n%s\n%s\n[Pair]\nA-B : as.polynomial 1.0 2.0\n' % (target, '\n'.join('%s : %s' % (k, v) for k, v in kw.items()), extra)
 
 def check_case(rep, case, name):
     if case.get('kind') == 'excel': excel_grid_case(rep); return
     kw = case['options']; which = case.get('which', 'r')
     pre = {'r': ('nr', 'dr', 'cutoff'), 'rho': ('nrho', 'drho', 'cutoff_rho')}[which]
     try:
-        cp = ConfigParser(io.StringIO(section(kw)))
+        cp = ConfigParser(io.StringIO(section(kw, variables=case.get('variables'))))
         t = cp.tabulation
         nr, cutoff = (t.nr, t.cutoff) if which == 'r' else (t.nrho, t.cutoff_rho)
         err = None
@@ -41,7 +42,7 @@ def check_case(rep, case, name):
         rep.dev(name, case, 'nr=%r cutoff=%r' % (nr, cutoff), 'nr=%r cutoff=%r' % (want_nr, want_cut)); return
     rep.ok()
     if case.get('tabulate') and which == 'r' and want_nr and want_nr >= 3:
-        tab = Configuration().read(io.StringIO(section(kw)))
+        tab = Configuration().read(io.StringIO(section(kw, variables=case.get('variables'))))
         out = io.StringIO(); tab.write(out)
         rows = [l for l in out.getvalue().split('\n') if len(l.split()) == 4 and l.split()[0].isdigit()]
         N = want_nr - 1; cut = want_cut if want_cut is not None else 10.0
@@ -66,7 +67,11 @@ def gen_case(rng):
     elif mode == 'neg': o = {pre[2]: str(-cutoff), pre[0]: k + 1}
     elif mode == 'nr': o = {pre[0]: k + 1}
     elif mode == 'cutoff': o = {pre[2]: str(cutoff)}
-    return dict(which=which, options=o, tabulate=(k <= 400))
+    case = dict(which=which, options=o, tabulate=(k <= 400))
+    if rng.random() < 0.4:
+        absent = [p_ for p_ in ('nr', 'dr', 'cutoff', 'nrho', 'drho', 'cutoff_rho') if p_ not in o]
+        case['variables'] = {p_: ('17' if p_.startswith('nr') else '6.5' if 'cutoff' in p_ else '0.25') for p_ in rng.sample(absent, rng.randint(1, len(absent)))}
+    return case
 
 def excel_grid_case(rep):
     ini = ('[Tabulation]\ntarget : excel_eam\nnr : 7\ncutoff : 3.0\nnrho : 5\ncutoff_rho : 8.0\n\n[EAM-Embed]\nAl : >=0 as.polynomial 0 1\n\n[EAM-Density]\nAl : >=0 as.polynomial 1 0\n\n[Pair]\nAl-Al : >=0 as.polynomial 1\n')
